@@ -293,4 +293,79 @@ def svThrottle (T iv mq : Int) (cell : Option Int) (now : Int) : Option Int × R
       if await > 0 then (some expected, .wait await) else (some now, .pass)
     else (cell, .block)
 
+/-! ## Histories (what the theorems quantify over) -/
+
+/-- one `PerformChecking` call: clock reading, argument value, batch count -/
+structure Req where
+  t : Int
+  v : Val
+  b : Int
+deriving Repr
+
+/-- a reject controller's caches over a history, with every decision -/
+def runReject (r : Rule) : LRU → LRU → List Req → List (Req × Res)
+  | _, _, [] => []
+  | tm, tk, q :: qs =>
+    (q, (rejectCheck r tm tk q.t q.v q.b).2.2) ::
+      runReject r (rejectCheck r tm tk q.t q.v q.b).1 (rejectCheck r tm tk q.t q.v q.b).2.1 qs
+
+/-- final caches of `runReject` -/
+def endReject (r : Rule) : LRU → LRU → List Req → LRU × LRU
+  | tm, tk, [] => (tm, tk)
+  | tm, tk, q :: qs => endReject r (rejectCheck r tm tk q.t q.v q.b).1 (rejectCheck r tm tk q.t q.v q.b).2.1 qs
+
+def runThrottle (r : Rule) : LRU → List Req → List (Req × Res)
+  | _, [] => []
+  | tm, q :: qs => (q, (throttleCheck r tm q.t q.v q.b).2) :: runThrottle r (throttleCheck r tm q.t q.v q.b).1 qs
+
+/-- the one-value machines over a history of requests for that value -/
+def svRunReject (T maxC dms : Int) : Option (Int × Int) → List Req → List (Req × Res)
+  | _, [] => []
+  | c, q :: qs => (q, (svReject T maxC dms c q.t q.b).2) :: svRunReject T maxC dms (svReject T maxC dms c q.t q.b).1 qs
+
+def svRunThrottle (T D mq : Int) : Option Int → List Req → List (Req × Res)
+  | _, [] => []
+  | c, q :: qs =>
+    (q, (svThrottle T (interval T D q.b) mq c q.t).2) :: svRunThrottle T D mq (svThrottle T (interval T D q.b) mq c q.t).1 qs
+
+/-- `v` is in the cache after every step of the history: one residency episode -/
+def ResidentR (r : Rule) (v : Val) : LRU → LRU → List Req → Prop
+  | _, _, [] => True
+  | tm, tk, q :: qs =>
+    (rejectCheck r tm tk q.t q.v q.b).1.find v ≠ none ∧
+      ResidentR r v (rejectCheck r tm tk q.t q.v q.b).1 (rejectCheck r tm tk q.t q.v q.b).2.1 qs
+
+def ResidentT (r : Rule) (v : Val) : LRU → List Req → Prop
+  | _, [] => True
+  | tm, q :: qs => (throttleCheck r tm q.t q.v q.b).1.find v ≠ none ∧ ResidentT r v (throttleCheck r tm q.t q.v q.b).1 qs
+
+/-- `v` is not evicted during the history (if it is in the cache before a step it is there after it):
+    the history stays inside one residency episode of `v` -/
+def NotEvictedR (r : Rule) (v : Val) : LRU → LRU → List Req → Prop
+  | _, _, [] => True
+  | tm, tk, q :: qs =>
+    (tm.find v ≠ none → (rejectCheck r tm tk q.t q.v q.b).1.find v ≠ none) ∧
+      NotEvictedR r v (rejectCheck r tm tk q.t q.v q.b).1 (rejectCheck r tm tk q.t q.v q.b).2.1 qs
+
+def NotEvictedT (r : Rule) (v : Val) : LRU → List Req → Prop
+  | _, [] => True
+  | tm, q :: qs =>
+    (tm.find v ≠ none → (throttleCheck r tm q.t q.v q.b).1.find v ≠ none) ∧
+      NotEvictedT r v (throttleCheck r tm q.t q.v q.b).1 qs
+
+/-- the requests / decisions that concern value `v` -/
+def reqsOf (v : Val) (qs : List Req) : List Req := qs.filter fun q => decide (q.v = v)
+
+def forVal (v : Val) (l : List (Req × Res)) : List (Req × Res) := l.filter fun p => decide (p.1.v = v)
+
+/-- tokens admitted by a decision list -/
+def admitted : List (Req × Res) → Int
+  | [] => 0
+  | p :: l => (if p.2 = .pass then p.1.b else 0) + admitted l
+
+/-- request times never decrease, starting at or after `prev` -/
+def Mono (prev : Int) : List Req → Prop
+  | [] => True
+  | q :: qs => prev ≤ q.t ∧ Mono q.t qs
+
 end Sentinel.Hot
